@@ -7,6 +7,7 @@ toolchain go1.23.5
 require (
 	github.com/evolbioinfo/goalign v0.0.0
 	github.com/ulikunitz/xz v0.5.10
+	gonum.org/v1/gonum v0.9.3
 	pgregory.net/rapid v1.3.0
 )
 
@@ -27,7 +28,6 @@ require (
 	github.com/spf13/pflag v1.0.5 // indirect
 	golang.org/x/exp v0.0.0-20200224162631-6cc2880d07d6 // indirect
 	golang.org/x/sys v0.8.0 // indirect
-	gonum.org/v1/gonum v0.9.3 // indirect
 	gopkg.in/yaml.v2 v2.4.0 // indirect
 )
 
